@@ -693,6 +693,45 @@ func (x *Exec) havocParam(s *State, obj types.Object) *Term {
 	return v
 }
 
+// checkNewObjInv: the `typeinvnew` invariants of T are obligations for an object just built by &T{...}
+func (x *Exec) checkNewObjInv(s *State, ref *Term, t types.Type, pos token.Pos) {
+	if x.dry > 0 || x.inObjInv {
+		return
+	}
+	invs := x.eng.typeInvs[types.TypeString(t, nil)]
+	for _, ti := range invs {
+		if !ti.c.Checked {
+			continue
+		}
+		fl := ti.c.Expr.(*ast.FuncLit)
+		self := ti.c.Info.Defs[fl.Type.Params.List[0].Names[0]]
+		saved, had := s.env[self]
+		s.env[self] = ref
+		x.clauseInfo = append(x.clauseInfo, ti.c.Info)
+		x.frames = append(x.frames, &Frame{fi: x.frames[0].fi, info: ti.pkg.TypesInfo, inlined: true})
+		x.inObjInv = true
+		x.dry++
+		c := s.clone()
+		g := x.evalCond(c, fl.Body.List[0].(*ast.ReturnStmt).Results[0])
+		x.dry--
+		x.inObjInv = false
+		x.frames = x.frames[:len(x.frames)-1]
+		x.clauseInfo = x.clauseInfo[:len(x.clauseInfo)-1]
+		if had {
+			s.env[self] = saved
+		} else {
+			delete(s.env, self)
+		}
+		for k, hv := range c.heap {
+			if _, ok := s.heap[k]; !ok {
+				s.heap[k] = hv
+			}
+		}
+		s.assumes = c.assumes
+		x.oblige(s, "typeinv", g, pos, "object invariant of the new "+types.TypeString(t, nil)+": "+ti.c.Text)
+	}
+}
+
 // assumeObjInv assumes the declared object invariants (//@ typeinv) of *T for the reference v (if non-nil).
 // These are assumptions about the data structure (listed in the evidence), not proved globally.
 func (x *Exec) assumeObjInv(s *State, v *Term, t types.Type) {
